@@ -140,6 +140,10 @@ fn denom_s(d: u128) -> String {
         1 => "ibc/27394FB092D2ECCD56123C74F36E4C1F926001CEADA9CA97EA622B25F41E5EB2".to_string(),
         2 => "UAURA".to_string(),
         3 => "uaurax".to_string(),
+        // denom 0 as a proper suffix of a denom that sorts last, and a denom that sorts after "uaurax" (so that a denom
+        // with denom 0 as a proper prefix can be the smaller identifier of a pair)
+        4 => "xuaura".to_string(),
+        5 => "uzzz".to_string(),
         _ => format!("denom{}", d),
     }
 }
